@@ -10,6 +10,7 @@ import GwModel.Insert
 import GwModel.Point
 import GwModel.FindPts
 import GwModel.Drv.PlanCodec
+import GwModel.Exec.Machine
 /-! gwdrv: one JSON object per line in, one per line out (DESIGN §2.2). Core + Lean.Data.Json only. -/
 open Lean Codec
 
@@ -142,11 +143,41 @@ def runPoint (j : Json) : Json :=
       ("index", match d.index with | some i => .num (JsonNumber.fromNat i) | none => .num (JsonNumber.fromInt (-1))),
       ("id", .str (String.ofList d.id)), ("list", .bool (Pt.isListElement p))]
 
+/-- {"tasks":[{"parent":p|null,"failed":b}],"acts":[{"eff":t}|"recv"|"done"|"ret"]}: replay on the executor machine
+    in the configuration the theorems assume (`Cfg.Safe`: add, publish, spawn; no self-sent errors) with the
+    channel capacity extracted from the source -/
+def runTrace (j : Json) : Json :=
+  let ts : ExecM.Tasks := (getArr j "tasks").map fun t => { parent := optNat t "parent", failed := getBool t "failed" }
+  let cfg : ExecM.Cfg := { cap := max Gen.exec.resultCap 1, errCap := 0, selfSend := false, order := ExecM.safeOrder }
+  let decAct (a : Json) : Option ExecM.Act :=
+    match a with
+    | .str "recv" => some .recv
+    | .str "done" => some .done
+    | .str "ret" => some .ret
+    | other => (optNat other "eff").map ExecM.Act.eff
+  let nats (l : List Nat) : Json := .arr (l.map fun n => Json.num (JsonNumber.fromNat n)).toArray
+  let rec go (s : ExecM.St) (i : Nat) : List Json → Json
+    | [] => Json.mkObj [("accepted", .bool true), ("returned", .bool s.returned), ("crashed", .bool s.crashed),
+              ("order", nats s.order), ("errs", nats s.errs), ("wg", .num (JsonNumber.fromInt s.wg)),
+              ("cap", .num (JsonNumber.fromNat cfg.cap))]
+    | a :: rest =>
+      match decAct a with
+      | none => Json.mkObj [("accepted", .bool false), ("at", .num (JsonNumber.fromNat i)), ("why", .str "unreadable action")]
+      | some act =>
+        match ExecM.step cfg ts s act with
+        | none => Json.mkObj [("accepted", .bool false), ("at", .num (JsonNumber.fromNat i)), ("why", .str ("not enabled: " ++ reprStr act)),
+                    ("queue", nats s.queue), ("wg", .num (JsonNumber.fromInt s.wg))]
+        | some s' =>
+          if s'.crashed then Json.mkObj [("accepted", .bool false), ("at", .num (JsonNumber.fromNat i)), ("why", .str ("crash state after " ++ reprStr act))]
+          else go s' (i + 1) rest
+  go (ExecM.init ts) 0 (getArr j "acts")
+
 def handle (j : Json) : Json :=
   match getStr j "op" with
   | "mono" => Json.mkObj [("data", encVal (Mono.mono (decCase j)))]
   | "merge" => runMerge j
   | "plan" => PlanCodec.runPlan j
+  | "trace" => runTrace j
   | "insert" => runInsert j
   | "point" => runPoint j
   | "findpts" => runFindPts j
